@@ -434,6 +434,17 @@ def run_query(est, q, pool, n_src):
     raise KeyError(name)
 
 
+def pristine_battery(pool, client, nf_ops, queries, n_src):
+    """Runs inside a freshly forked child of the pristine server (dreye imported, never
+    called): normal-form replay on a new estimator, then every query on its own copy."""
+    import warnings as _w
+    _w.filterwarnings("ignore")
+    est = new_estimator(client, pool)
+    for op in nf_ops:
+        apply_mutator(est, op, pool)
+    return [call(run_query, copy.deepcopy(est), q, pool, n_src) for q in queries]
+
+
 def query_array_args(q, pool, n_src):
     out = []
     for v in q.get("a", {}).values():
@@ -643,6 +654,7 @@ def generate(rs, mode, tier, index):
     plan = {"check": ID, "run_seed": rs, "mode": mode, "pool": pool, "meta": meta,
             "clients": clients, "schedule": sched,
             "battery": cheap_battery(meta),
+            "pristine": rng.coin(0.5 if tier == "quick" else 0.35),
             "full_battery_every": rng.choice([0, 3, 5]),
             "full_battery": [random_query(rng, meta, slow_ok=False) for _ in range(4)] + [
                 {"q": "fit", "a": {"B": "Bq1"}},
@@ -712,6 +724,25 @@ def execute(plan):
                 raise Violation(ID, "caller_array_modified",
                                 f"array {k!r} supplied by the caller was modified by {where}",
                                 array=k, where=where)
+
+    use_pristine = bool(plan.get("pristine", False))
+
+    def compare_pristine(cs, queries, answers, where):
+        from sim import pristine
+        nf, _, _ = normal_form(cs.muts)
+        qs = [{k: v for k, v in q.items() if k != "fault"} for q in queries]
+        refs = pristine.client().call("checks.c14", "pristine_battery", plan["pool"], cs.client,
+                                      nf, qs, cs.sym.n_src)
+        bump("pristine_process_references", len(qs))
+        for q, r_h, r_p in zip(qs, answers, refs):
+            rt, at = tol_for(q)
+            ok, d, why = compare(r_h, r_p, rt, at)
+            if not ok:
+                raise Violation(ID, "answer_differs_from_pristine_process",
+                                f"{q['q']}{q.get('a', {})} after history of {len(cs.muts)} "
+                                f"mutators differs from the same normal form replayed in a "
+                                f"process where dreye was never called before: {why}",
+                                query=q, where=where, client=cs.client["id"])
 
     def compare_query(cs, q, where, faulted_outcome=None):
         """Run q on the history object and on a fresh copy of the normal-form object."""
@@ -882,9 +913,14 @@ def execute(plan):
         for cs in states.values():
             if not cs.alive:
                 continue
+            answers = []
             for q in plan["battery"] + plan["full_battery"]:
-                compare_query(cs, q, "final battery")
+                r_h, _ = compare_query(cs, q, "final battery")
+                answers.append(r_h)
                 bump("battery_probes")
+            if use_pristine:
+                compare_pristine(cs, plan["battery"] + plan["full_battery"], answers,
+                                 "final battery")
     except Violation as v:
         violation = v.as_dict()
 
@@ -992,6 +1028,10 @@ def candidates(plan):
     if plan.get("full_battery_every"):
         p = dict(plan)
         p["full_battery_every"] = 0
+        yield p
+    if plan.get("pristine"):
+        p = dict(plan)
+        p["pristine"] = False
         yield p
     if len(plan.get("battery", [])) > 0:
         b = plan["battery"]
